@@ -2208,17 +2208,568 @@ fn c22_shrink(rt: &tokio::runtime::Runtime, cmds: Vec<MV>, plant: &[u8], kf_on: 
     (best, msg)
 }
 
+// --- C22 live part: large replies on a real socket ---------------------------------------
+//
+// handler + encode cannot see how the reply is put on the wire. This part starts a real
+// RespServer on a loopback port, writes a pipeline of commands whose replies range from a
+// few bytes to 32 MiB without waiting for answers, and checks the bytes that come back.
+//
+// Verdict rule (no timing assertion except one generous idle bound):
+//   * every byte received is compared, as it arrives, with the only RESP encoding the
+//     expected replies have (ECHO -> `$n\r\n<payload>\r\n`, PING -> `+PONG\r\n`, the query
+//     -> header row + one bulk cell). The first differing byte is a VIOLATION: the stream
+//     then holds a frame that can no longer be completed correctly, whatever comes later.
+//     Every pipeline ends with a small PING, so a reply that was cut short on the wire is
+//     always followed by other reply bytes and shows up as such a differing byte;
+//   * end of stream / connection reset before all replies arrived, or bytes after the last
+//     expected reply: VIOLATION;
+//   * the complete stream is finally read by the strict RESP reader: exactly one frame per
+//     command, in order, payloads intact;
+//   * if the bytes so far are a correct prefix, the server keeps the connection open and
+//     nothing arrives for LIVE_IDLE_SECS: INCONCLUSIVE (exit 2), never a violation.
+
+const LIVE_IDLE_SECS: u64 = 180;
+const LIVE_FILL: &[u8] = b"abcdefghijklmnopqrstuvwxyz0123456789 \r\n";
+const LIVE_FILL_QUERY: &[u8] = b"abcdefghijklmnopqrstuvwxyz0123456789";
+
+#[derive(Clone, Debug, PartialEq, Eq, Hash)]
+enum LiveCmd {
+    /// ECHO of a generated payload (size, salt)
+    Echo(usize, u32),
+    /// GRAPH.QUERY default "RETURN '<literal>' AS s" (size, salt)
+    Query(usize, u32),
+    Ping,
+}
+
+/// payload of `n` bytes over `alpha`: a 4099-byte non-repeating-looking block, entered at
+/// an offset that depends on the salt and repeated (block copies, so 32 MiB cost a memcpy)
+fn live_fill_into(out: &mut Vec<u8>, n: usize, salt: u32, alpha: &[u8]) {
+    const BLOCK: usize = 4099;
+    let m = alpha.len();
+    let block: Vec<u8> = (0..BLOCK).map(|i| alpha[(i * 7 + (i >> 5) + i * i) % m]).collect();
+    let end = out.len() + n;
+    let mut at = (salt as usize * 131) % BLOCK;
+    while out.len() < end {
+        let take = (BLOCK - at).min(end - out.len());
+        out.extend_from_slice(&block[at..at + take]);
+        at = 0;
+    }
+}
+fn live_fill(n: usize, salt: u32, alpha: &[u8]) -> Vec<u8> {
+    let mut out = Vec::with_capacity(n);
+    live_fill_into(&mut out, n, salt, alpha);
+    out
+}
+
+impl LiveCmd {
+    fn request(&self) -> Vec<u8> {
+        let mut out = Vec::new();
+        match self {
+            LiveCmd::Echo(n, salt) => mv_encode(&MV::Array(vec![bulk(b"ECHO"), MV::Bulk(Some(live_fill(*n, *salt, LIVE_FILL)))]), &mut out, &mut Vec::new()),
+            LiveCmd::Query(n, salt) => {
+                let mut q = b"RETURN '".to_vec();
+                q.extend_from_slice(&live_fill(*n, *salt, LIVE_FILL_QUERY));
+                q.extend_from_slice(b"' AS s");
+                mv_encode(&MV::Array(vec![bulk(b"GRAPH.QUERY"), bulk(b"default"), MV::Bulk(Some(q))]), &mut out, &mut Vec::new())
+            }
+            LiveCmd::Ping => out.extend_from_slice(b"*1\r\n$4\r\nPING\r\n"),
+        }
+        out
+    }
+    fn reply(&self) -> MV {
+        match self {
+            LiveCmd::Echo(n, salt) => MV::Bulk(Some(live_fill(*n, *salt, LIVE_FILL))),
+            LiveCmd::Query(n, salt) => MV::Array(vec![MV::Array(vec![bulk(b"s")]), MV::Array(vec![MV::Bulk(Some(live_fill(*n, *salt, LIVE_FILL_QUERY)))])]),
+            LiveCmd::Ping => MV::Simple(b"PONG".to_vec()),
+        }
+    }
+    /// append the request bytes / the expected reply bytes without intermediate copies
+    fn request_into(&self, out: &mut Vec<u8>) {
+        match self {
+            LiveCmd::Echo(n, salt) => {
+                out.extend_from_slice(format!("*2\r\n$4\r\nECHO\r\n${n}\r\n").as_bytes());
+                live_fill_into(out, *n, *salt, LIVE_FILL);
+                out.extend_from_slice(b"\r\n");
+            }
+            LiveCmd::Query(n, salt) => {
+                out.extend_from_slice(format!("*3\r\n$11\r\nGRAPH.QUERY\r\n$7\r\ndefault\r\n${}\r\nRETURN '", n + 14).as_bytes());
+                live_fill_into(out, *n, *salt, LIVE_FILL_QUERY);
+                out.extend_from_slice(b"' AS s\r\n");
+            }
+            LiveCmd::Ping => out.extend_from_slice(b"*1\r\n$4\r\nPING\r\n"),
+        }
+    }
+    fn reply_into(&self, out: &mut Vec<u8>) {
+        match self {
+            LiveCmd::Echo(n, salt) => {
+                out.extend_from_slice(format!("${n}\r\n").as_bytes());
+                live_fill_into(out, *n, *salt, LIVE_FILL);
+                out.extend_from_slice(b"\r\n");
+            }
+            LiveCmd::Query(n, salt) => {
+                out.extend_from_slice(format!("*2\r\n*1\r\n$1\r\ns\r\n*1\r\n${n}\r\n").as_bytes());
+                live_fill_into(out, *n, *salt, LIVE_FILL_QUERY);
+                out.extend_from_slice(b"\r\n");
+            }
+            LiveCmd::Ping => out.extend_from_slice(b"+PONG\r\n"),
+        }
+    }
+    fn wire_sizes(&self) -> (usize, usize) {
+        match self {
+            LiveCmd::Echo(n, _) => (n + 40, n + 24),
+            LiveCmd::Query(n, _) => (n + 80, n + 48),
+            LiveCmd::Ping => (14, 7),
+        }
+    }
+    fn reply_size(&self) -> usize {
+        match self {
+            LiveCmd::Echo(n, _) | LiveCmd::Query(n, _) => *n,
+            LiveCmd::Ping => 4,
+        }
+    }
+    fn json(&self) -> J {
+        match self {
+            LiveCmd::Echo(n, s) => json!({"echo": n, "salt": s}),
+            LiveCmd::Query(n, s) => json!({"query": n, "salt": s}),
+            LiveCmd::Ping => json!("ping"),
+        }
+    }
+    fn from_json(j: &J) -> LiveCmd {
+        if let Some(n) = j.get("echo") {
+            LiveCmd::Echo(n.as_u64().unwrap_or(0) as usize, j["salt"].as_u64().unwrap_or(0) as u32)
+        } else if let Some(n) = j.get("query") {
+            LiveCmd::Query(n.as_u64().unwrap_or(0) as usize, j["salt"].as_u64().unwrap_or(0) as u32)
+        } else {
+            LiveCmd::Ping
+        }
+    }
+}
+
+fn live_size_class(n: usize) -> &'static str {
+    match n {
+        0..=4095 => "small",
+        4096..=524_287 => "64k",
+        524_288..=4_194_303 => "1m",
+        4_194_304..=16_777_215 => "8m",
+        _ => "32m",
+    }
+}
+
+enum LiveVerdict {
+    Held,
+    Violation(String),
+    Inconclusive(String),
+}
+
+fn show(b: &[u8]) -> String {
+    format!("{:?}", String::from_utf8_lossy(&b[..b.len().min(32)]))
+}
+
+/// one connection: write the whole pipeline from a second thread, compare the reply stream
+/// strict RESP reader without payload copies: advances `pos` over exactly one frame
+fn strict_skip(b: &[u8], pos: &mut usize, depth: usize) -> Result<(), String> {
+    if depth > 64 {
+        return Err("nesting deeper than 64".into());
+    }
+    if *pos >= b.len() {
+        return Err("truncated: no type byte".into());
+    }
+    let t = b[*pos];
+    let rest = &b[*pos + 1..];
+    // header lines are short; a bulk payload is never scanned for CRLF
+    let le = match rest[..rest.len().min(1 << 16)].windows(2).position(|w| w == b"\r\n") {
+        Some(p) => p,
+        None if t == b'+' || t == b'-' => match rest.windows(2).position(|w| w == b"\r\n") {
+            Some(p) => p,
+            None => return Err("truncated: line without CRLF".into()),
+        },
+        None => return Err("header line without CRLF".into()),
+    };
+    let line = &rest[..le];
+    *pos += 1 + le + 2;
+    let uint = |l: &[u8]| -> Option<usize> {
+        if l.is_empty() || !l.iter().all(|c| c.is_ascii_digit()) {
+            return None;
+        }
+        std::str::from_utf8(l).ok()?.parse::<usize>().ok()
+    };
+    match t {
+        b'+' | b'-' => Ok(()),
+        b':' => {
+            let d = line.strip_prefix(b"-").unwrap_or(line);
+            if uint(d).is_some() || std::str::from_utf8(line).ok().and_then(|x| x.parse::<i64>().ok()).is_some() && !d.is_empty() && d.iter().all(|c| c.is_ascii_digit()) {
+                Ok(())
+            } else {
+                Err("malformed integer".into())
+            }
+        }
+        b'$' => {
+            if line == b"-1" {
+                return Ok(());
+            }
+            let n = uint(line).ok_or_else(|| "malformed bulk length".to_string())?;
+            if b.len() < *pos + n + 2 {
+                return Err("truncated bulk".into());
+            }
+            if &b[*pos + n..*pos + n + 2] != b"\r\n" {
+                return Err("bulk payload not followed by CRLF".into());
+            }
+            *pos += n + 2;
+            Ok(())
+        }
+        b'*' => {
+            let n = uint(line).ok_or_else(|| "malformed array count".to_string())?;
+            for _ in 0..n {
+                strict_skip(b, pos, depth + 1)?;
+            }
+            Ok(())
+        }
+        b'_' => {
+            if line.is_empty() {
+                Ok(())
+            } else {
+                Err("null frame with trailing bytes".into())
+            }
+        }
+        o => Err(format!("unknown type byte {:?}", o as char)),
+    }
+}
+
+fn c22_live_run(cmds: &[LiveCmd]) -> LiveVerdict {
+    use std::io::{Read, Write};
+    let port = live_server_port();
+    let t_start = std::time::Instant::now();
+    let (rq_cap, ex_cap) = cmds.iter().fold((0, 0), |a, c| (a.0 + c.wire_sizes().0, a.1 + c.wire_sizes().1));
+    let mut request = Vec::with_capacity(rq_cap);
+    let mut expected = Vec::with_capacity(ex_cap);
+    let mut ends = Vec::new();
+    for c in cmds {
+        c.request_into(&mut request);
+        c.reply_into(&mut expected);
+        ends.push(expected.len());
+    }
+    if std::env::var("VC_DEBUG").is_ok() { eprintln!("live: built request {} B, expected {} B t={:?}", request.len(), expected.len(), t_start.elapsed()); }
+    let stream = match std::net::TcpStream::connect(("127.0.0.1", port)) {
+        Ok(s) => s,
+        Err(e) => return LiveVerdict::Inconclusive(format!("cannot connect to the loopback server: {e}")),
+    };
+    stream.set_nodelay(true).ok();
+    stream.set_read_timeout(Some(std::time::Duration::from_millis(500))).ok();
+    let mut wstream = match stream.try_clone() {
+        Ok(s) => s,
+        Err(e) => return LiveVerdict::Inconclusive(format!("cannot clone the socket: {e}")),
+    };
+    let written = std::sync::Arc::new(std::sync::atomic::AtomicUsize::new(0));
+    let wdone = std::sync::Arc::new(std::sync::atomic::AtomicBool::new(false));
+    let (written_w, wdone_w) = (written.clone(), wdone.clone());
+    let writer = std::thread::spawn(move || -> Result<(), String> {
+        let mut r = Ok(());
+        for chunk in request.chunks(1 << 18) {
+            if let Err(e) = wstream.write_all(chunk) {
+                r = Err(e.to_string());
+                break;
+            }
+            written_w.fetch_add(chunk.len(), std::sync::atomic::Ordering::SeqCst);
+        }
+        let _ = wstream.flush();
+        wdone_w.store(true, std::sync::atomic::Ordering::SeqCst);
+        r
+    });
+    // Before the first read and at every reply boundary the client waits until the
+    // connection is quiescent (neither the bytes it has sent nor the bytes waiting in its
+    // receive queue changed for ~150 ms). The server therefore issues the write of each
+    // reply towards a peer that is not draining, so one write call can move at most the
+    // socket buffers -- the situation in which a short write shows. This pacing only
+    // affects what the server experiences, never the verdict.
+    let fd = {
+        use std::os::unix::io::AsRawFd;
+        stream.as_raw_fd()
+    };
+    let pending = move || -> usize {
+        let mut n: libc::c_int = 0;
+        let r = unsafe { libc::ioctl(fd, libc::FIONREAD, &mut n) };
+        if r == 0 && n > 0 {
+            n as usize
+        } else {
+            0
+        }
+    };
+    let wait_quiescent = |written: &std::sync::atomic::AtomicUsize| -> usize {
+        let mut last = (written.load(std::sync::atomic::Ordering::SeqCst), pending());
+        let mut stable = 0;
+        let mut spins = 0;
+        while stable < 6 && spins < 200 {
+            std::thread::sleep(std::time::Duration::from_millis(25));
+            let cur = (written.load(std::sync::atomic::Ordering::SeqCst), pending());
+            if cur == last {
+                stable += 1;
+            } else {
+                stable = 0;
+                last = cur;
+            }
+            spins += 1;
+        }
+        last.1
+    };
+    let which = |off: usize| ends.iter().position(|e| off < *e).unwrap_or(ends.len().saturating_sub(1));
+    let describe = |i: usize| format!("reply #{i} (to {})", cmds[i].json());
+    let mut rstream = stream;
+    // received bytes are compared on arrival and not stored: `got_len` bytes of `expected`
+    // are known to be exactly what came over the wire
+    let mut got_len: usize = 0;
+    let mut tmp = vec![0u8; 1 << 18];
+    let mut last_progress = std::time::Instant::now();
+    let mut verdict: Option<LiveVerdict> = None;
+    let mut paused_at: Option<usize> = None;
+    while verdict.is_none() {
+        // pause at the start and at every reply boundary (where the server issues its next
+        // write); in between, drain at full speed. Reads never cross a boundary.
+        let at_boundary = got_len == 0 || ends.contains(&got_len);
+        if at_boundary && paused_at != Some(got_len) {
+            if std::env::var("VC_DEBUG").is_ok() { eprintln!("live: boundary at {} t={:?} written={}", got_len, t_start.elapsed(), written.load(std::sync::atomic::Ordering::SeqCst)); }
+            wait_quiescent(&written);
+            if std::env::var("VC_DEBUG").is_ok() { eprintln!("live: quiescent t={:?} pending={}", t_start.elapsed(), pending()); }
+            paused_at = Some(got_len);
+        }
+        let next_end = ends.iter().copied().find(|e| *e > got_len).unwrap_or(usize::MAX);
+        let want = (next_end - got_len).min(tmp.len()).max(1);
+        match rstream.read(&mut tmp[..want]) {
+            Ok(0) => {
+                if got_len == expected.len() {
+                    break;
+                }
+                let i = which(got_len);
+                verdict = Some(LiveVerdict::Violation(format!(
+                    "the server closed the connection after {} of {} reply bytes, inside {}; {} complete replies of {} were received",
+                    got_len,
+                    expected.len(),
+                    describe(i),
+                    ends.iter().filter(|e| **e <= got_len).count(),
+                    cmds.len()
+                )));
+            }
+            Ok(k) => {
+                last_progress = std::time::Instant::now();
+                let off = got_len;
+                if off + k > expected.len() {
+                    let extra = &tmp[expected.len().saturating_sub(off).min(k)..k];
+                    verdict = Some(LiveVerdict::Violation(format!("{} bytes after the last expected reply: {}", off + k - expected.len(), show(extra))));
+                    continue;
+                }
+                if tmp[..k] != expected[off..off + k] {
+                    let d = (0..k).find(|j| tmp[*j] != expected[off + *j]).unwrap();
+                    let at = off + d;
+                    let i = which(at);
+                    let start = if i == 0 { 0 } else { ends[i - 1] };
+                    verdict = Some(LiveVerdict::Violation(format!(
+                        "byte {} of the reply stream (byte {} of {}, a frame of {} bytes) is wrong: the wire carries {} where the frame continues with {}; the client can no longer read one well-formed frame per command",
+                        at,
+                        at - start,
+                        describe(i),
+                        ends[i] - start,
+                        show(&tmp[d..k]),
+                        show(&expected[at..])
+                    )));
+                    continue;
+                }
+                got_len += k;
+                if got_len == expected.len() {
+                    // grace read: anything more is a stray frame
+                    rstream.set_read_timeout(Some(std::time::Duration::from_millis(150))).ok();
+                    match rstream.read(&mut tmp) {
+                        Ok(k2) if k2 > 0 => verdict = Some(LiveVerdict::Violation(format!("{k2} bytes after the last expected reply: {}", show(&tmp[..k2])))),
+                        _ => {}
+                    }
+                    break;
+                }
+            }
+            Err(e) if e.kind() == std::io::ErrorKind::WouldBlock || e.kind() == std::io::ErrorKind::TimedOut || e.kind() == std::io::ErrorKind::Interrupted => {
+                if last_progress.elapsed().as_secs() >= LIVE_IDLE_SECS {
+                    verdict = Some(LiveVerdict::Inconclusive(format!(
+                        "no reply byte for {LIVE_IDLE_SECS} s with the connection open; {} of {} bytes received so far, all of them correct",
+                        got_len,
+                        expected.len()
+                    )));
+                }
+            }
+            Err(e) => {
+                let i = which(got_len);
+                verdict = Some(LiveVerdict::Violation(format!("the connection failed ({e}) after {} of {} reply bytes, inside {}", got_len, expected.len(), describe(i))));
+            }
+        }
+    }
+    let _ = rstream.shutdown(std::net::Shutdown::Both);
+    let _ = &wdone;
+    let wres = writer.join().unwrap_or_else(|_| Err("writer thread panicked".into()));
+    if let Some(v) = verdict {
+        return v;
+    }
+    if let Err(e) = wres {
+        return LiveVerdict::Violation(format!("writing the pipeline failed although every reply arrived: {e}"));
+    }
+    // the whole stream through the strict reader: one frame per command, in order. The
+    // received stream equals `expected` byte for byte (checked above), so it is read from there.
+    let mut pos = 0;
+    for (i, end) in ends.iter().enumerate() {
+        match strict_skip(&expected, &mut pos, 0) {
+            Ok(()) if pos == *end => {}
+            Ok(()) => return LiveVerdict::Violation(format!("{}: the strict reader's frame ends at byte {pos}, the reply at byte {end}", describe(i))),
+            Err(e) => return LiveVerdict::Violation(format!("{} is not a frame for the strict reader: {e}", describe(i))),
+        }
+    }
+    if pos != got_len {
+        return LiveVerdict::Violation(format!("{} stray bytes after the last frame", got_len - pos));
+    }
+    LiveVerdict::Held
+}
+
+fn c22_live_case_json(cmds: &[LiveCmd]) -> J {
+    json!({"live": true, "pipeline": cmds.iter().map(|c| c.json()).collect::<Vec<_>>()})
+}
+
+/// pipelines of this run: fixed coverage of every size class + seed-driven mixes
+fn c22_live_pipelines(args: &Args) -> Vec<Vec<LiveCmd>> {
+    use proptest::prelude::*;
+    const K64: usize = 64 * 1024;
+    const M1: usize = 1024 * 1024;
+    let n_random = args.tier.pick(1usize, 12usize);
+    let tapes = generate(args.seed ^ 0x22c2, 3 + n_random, &proptest::collection::vec(any::<u16>(), 24));
+    let mut out = Vec::new();
+    for (k, tape) in tapes.iter().enumerate() {
+        let mut t = Tape::new(tape);
+        let mut jitter = |base: usize| base + t.pick(4096);
+        let mut cmds: Vec<LiveCmd> = match k {
+            0 => vec![LiveCmd::Echo(jitter(3), 1), LiveCmd::Echo(jitter(K64), 2), LiveCmd::Query(jitter(K64), 3), LiveCmd::Echo(jitter(M1), 4), LiveCmd::Echo(0, 5)],
+            1 => vec![LiveCmd::Echo(jitter(8 * M1), 6), LiveCmd::Echo(jitter(10), 7), LiveCmd::Query(jitter(M1), 8), LiveCmd::Echo(jitter(M1), 9)],
+            2 => vec![LiveCmd::Echo(jitter(32 * M1), 10), LiveCmd::Echo(jitter(100), 11), LiveCmd::Ping, LiveCmd::Echo(jitter(K64), 12)],
+            _ => {
+                drop(jitter);
+                let n = 2 + t.pick(6);
+                let mut budget: usize = args.tier.pick(12, 72) * M1;
+                let mut v = Vec::new();
+                for j in 0..n {
+                    let base = [7usize, K64, M1, 8 * M1, 32 * M1, 300, 2 * M1][t.pick(7)];
+                    let size = (base + t.pick(4096)).min(budget);
+                    budget -= size.min(budget);
+                    let salt = (k * 16 + j) as u32 + 100;
+                    v.push(match t.pick(5) {
+                        0 => LiveCmd::Ping,
+                        1 if size <= 2 * M1 => LiveCmd::Query(size, salt),
+                        _ => LiveCmd::Echo(size, salt),
+                    });
+                }
+                v
+            }
+        };
+        // order of the fixed pipelines varies with the seed; every pipeline ends with a PING
+        if k < 3 {
+            let mut t2 = Tape::new(&tape[8..]);
+            let r = t2.pick(cmds.len());
+            cmds.rotate_left(r);
+        }
+        cmds.push(LiveCmd::Ping);
+        out.push(cmds);
+    }
+    out
+}
+
+/// returns a failing pipeline (already shrunk) and its message
+fn c22_live(args: &Args, ev: &mut Evidence) -> Option<(Vec<LiveCmd>, String)> {
+    for cmds in c22_live_pipelines(args) {
+        ev.class("live_large_reply_connections");
+        for c in &cmds {
+            ev.case();
+            match c {
+                LiveCmd::Ping => ev.class("live_large_reply_cmd_ping"),
+                LiveCmd::Query(n, _) => {
+                    ev.class("live_large_reply_cmd_query");
+                    ev.class(&format!("live_large_reply_size_{}", live_size_class(*n)));
+                }
+                LiveCmd::Echo(n, _) => {
+                    ev.class("live_large_reply_cmd_echo");
+                    ev.class(&format!("live_large_reply_size_{}", live_size_class(*n)));
+                }
+            }
+            ev.class_n("live_large_reply_bytes", c.reply_size() as u64);
+            if c.reply_size() >= 64 * 1024 {
+                ev.nontrivial(&("live", c));
+            }
+        }
+        match c22_live_run(&cmds) {
+            LiveVerdict::Held => ev.class("live_large_reply_held"),
+            LiveVerdict::Inconclusive(m) => {
+                eprintln!("INCONCLUSIVE: live large-reply pipeline {}: {m}", c22_live_case_json(&cmds));
+                ev.write();
+                std::process::exit(2);
+            }
+            LiveVerdict::Violation(m) => {
+                ev.frozen = true;
+                // shrink: drop commands (the closing PING stays), then halve the large sizes
+                let fails = |c: &[LiveCmd]| {
+                    let mut v = c.to_vec();
+                    v.push(LiveCmd::Ping);
+                    matches!(c22_live_run(&v), LiveVerdict::Violation(_))
+                };
+                let body: Vec<LiveCmd> = cmds[..cmds.len() - 1].to_vec();
+                let mut best = if fails(&body) { shrink_vec(body, &fails) } else { body };
+                for i in 0..best.len() {
+                    loop {
+                        let smaller = match &best[i] {
+                            LiveCmd::Echo(n, s) if *n >= 128 * 1024 => LiveCmd::Echo(n / 2, *s),
+                            LiveCmd::Query(n, s) if *n >= 128 * 1024 => LiveCmd::Query(n / 2, *s),
+                            _ => break,
+                        };
+                        let mut cand = best.clone();
+                        cand[i] = smaller;
+                        if fails(&cand) {
+                            best = cand;
+                        } else {
+                            break;
+                        }
+                    }
+                }
+                best.push(LiveCmd::Ping);
+                let msg = match c22_live_run(&best) {
+                    LiveVerdict::Violation(m2) => m2,
+                    _ => m,
+                };
+                return Some((best, msg));
+            }
+        }
+    }
+    None
+}
+
 fn c22(args: &Args) {
     let mut ev = Evidence::new(
         args,
         "exploration",
-        "command sequences through CommandHandler::handle_command on a fresh handler and store (unknown command, GRAPH.QUERY / RO_QUERY / DELETE / LIST, PING, ECHO, INFO; valid and failing query texts: literals, maps, lists, aliases, unknown functions/procedures/variables, syntax errors, regex, type and constraint errors, stored-then-returned values) with a CR/LF plant inserted at EVERY byte position of the command name, graph name, message and query text (enumerated: template x field x position x plant), plus non-array / null / non-UTF-8 command shapes and random mixes of 1-3 plants at random positions (proptest selectors); oracle: encode(reply) read by an independent strict RESP reader (line = up to the first CRLF) is exactly one frame consuming all bytes. Non-trivial = the encoded reply contains the planted CR/LF sequence (error echo or data round trip); distinct = distinct command sequences.",
+        "command sequences through CommandHandler::handle_command on a fresh handler and store (unknown command, GRAPH.QUERY / RO_QUERY / DELETE / LIST, PING, ECHO, INFO; valid and failing query texts: literals, maps, lists, aliases, unknown functions/procedures/variables, syntax errors, regex, type and constraint errors, stored-then-returned values) with a CR/LF plant inserted at EVERY byte position of the command name, graph name, message and query text (enumerated: template x field x position x plant), plus non-array / null / non-UTF-8 command shapes and random mixes of 1-3 plants at random positions (proptest selectors); oracle: encode(reply) read by an independent strict RESP reader (line = up to the first CRLF) is exactly one frame consuming all bytes. Live part: pipelines of ECHO / GRAPH.QUERY / PING commands whose replies are spread over {small, 64 KiB, 1 MiB, 8 MiB, 32 MiB} (fixed coverage of every class + seed-driven mixes, sizes jittered) are written to a real RespServer on a loopback socket without waiting for answers; every reply byte is compared as it arrives with the unique RESP encoding of the expected replies and the complete stream is read by the strict reader: one frame per command, in order, payload intact. Non-trivial = the encoded reply contains the planted CR/LF sequence (error echo or data round trip), or a live reply of >= 64 KiB; distinct = distinct command sequences / distinct live commands.",
     );
+    ev.assume("the live large-reply part depends on loopback TCP (127.0.0.1) and an in-process RespServer; verdict rule: a wrong byte, bytes after the last reply, or end-of-stream / reset before every reply arrived is a violation; a correct prefix followed by 180 s without a byte on an open connection is inconclusive (exit 2), never a violation; every pipeline ends with a PING so a reply cut short on the wire is followed by other reply bytes and is seen as a wrong byte, not as a stall");
     let known = Known::load(args);
     let rt = tokio::runtime::Builder::new_current_thread().build().unwrap();
 
     if let Some(p) = &args.replay {
         let case = load_replay(p);
+        if case.get("live").and_then(|l| l.as_bool()).unwrap_or(false) {
+            let cmds: Vec<LiveCmd> = case["pipeline"].as_array().cloned().unwrap_or_default().iter().map(LiveCmd::from_json).collect();
+            ev.cases(cmds.len() as u64);
+            match c22_live_run(&cmds) {
+                LiveVerdict::Held => println!("replay: property held"),
+                LiveVerdict::Violation(m) => {
+                    report_violation(&mut ev, &case, &m);
+                }
+                LiveVerdict::Inconclusive(m) => {
+                    eprintln!("INCONCLUSIVE: {m}");
+                    std::process::exit(2);
+                }
+            }
+            ev.nontrivial(&case.to_string());
+            ev.nontrivial(&"replay");
+            ev.sample(case);
+            finish(&ev);
+        }
         let (cmds, plant) = c22_case_from(&case);
         ev.case();
         match catch(|| c22_check(&rt, &cmds, &plant, false)) {
@@ -2348,6 +2899,14 @@ fn c22(args: &Args) {
         ev.frozen = true;
         let (min, msg) = c22_shrink(&rt, cmds, &plant, kf_on);
         report_violation(&mut ev, &c22_case_json(&min, &plant), &msg);
+        finish(&ev);
+    }
+    // live part: large replies as they appear on the wire
+    if let Some((cmds, msg)) = c22_live(args, &mut ev) {
+        report_violation(&mut ev, &c22_live_case_json(&cmds), &msg);
+    } else {
+        ev.max_samples += 1;
+        ev.sample(json!({"live_pipeline_example": c22_live_pipelines(args).get(1).map(|c| c22_live_case_json(c))}));
     }
     finish(&ev);
 }
